@@ -3,7 +3,7 @@ use crate::decode::PhysDecodeLevel;
 // ---- environment model: the ghost wire (DESIGN.md 4.3).  `pending` = bytes the peer has sent and this side has not
 // yet read (universally quantified: the proofs hold for every content and every chunking the shim may choose);
 // `sent` = the slices handed to the transport, in order.
-pub struct PhysLayer { pub ghost pending: Seq<u8>, pub ghost sent: Seq<Seq<u8>>, pub ghost tls_by: Option<int> }   // tls_by: the TLS client configuration the layer was established under (None: not a client-side TLS layer)
+pub struct PhysLayer { pub ghost pending: Seq<u8>, pub ghost sent: Seq<Seq<u8>>, pub ghost tls_by: Option<int>, pub ghost read_errs: nat }   // tls_by: the TLS client configuration the layer was established under (None: not a client-side TLS layer)
 impl PhysLayer {
     #[verifier::external_body]
     pub async fn read(&mut self, buffer: &mut [u8], decode_level: PhysDecodeLevel) -> (r: Result<usize, std::io::Error>)
@@ -16,6 +16,9 @@ impl PhysLayer {
                 && (forall|i: int| 0 <= i < r->Ok_0 ==> #[trigger] final(buffer)@[i] == old(self).pending[i])
                 && final(self).pending == old(self).pending.subrange(r->Ok_0 as int, old(self).pending.len() as int),
             r is Err ==> final(self).pending == old(self).pending,
+            // read_errs: how many reads of this layer have failed so far (ghost history of the connection)
+            r is Ok ==> final(self).read_errs == old(self).read_errs,
+            r is Err ==> final(self).read_errs == old(self).read_errs + 1,
     { unimplemented!() }
 
     #[verifier::external_body]
@@ -23,6 +26,7 @@ impl PhysLayer {
         ensures
             final(self).pending == old(self).pending,
             final(self).sent == old(self).sent.push(data@),   // every attempt is logged, whatever the result
+            final(self).read_errs == old(self).read_errs,
     { unimplemented!() }
 }
 //@trusted PhysLayer::{read,write}: ghost-wire environment model (read copies n<=min(room,pending) bytes from the front of pending, n=0 is EOF; write appends the slice to the sent log); tokio / OS not modelled
